@@ -60,6 +60,12 @@ pub fn run_child(spec: &Spec) -> ChildResult {
         Err(e) => return ChildResult::HarnessError(format!("wait: {}", e)),
     };
     let text = String::from_utf8_lossy(&out.stdout);
+    if std::env::var("SIMH_LOG").is_ok() {
+        // PgCat's tracing subscriber writes to stdout: show it when asked for
+        for l in text.lines().filter(|l| !l.starts_with('{')) {
+            eprintln!("{}", l);
+        }
+    }
     if let Some(line) = text.lines().rev().find(|l| l.starts_with('{')) {
         match serde_json::from_str::<Verdict>(line) {
             Ok(v) => return ChildResult::Verdict(Box::new(v)),
@@ -119,8 +125,8 @@ pub fn budget(property: &str, tier: &str) -> Budget {
     let quick = tier != "thorough";
     let scale: u64 = std::env::var("VERIF_RUNS_SCALE").ok().and_then(|s| s.parse().ok()).unwrap_or(100);
     let base = match (property, quick) {
-        (_, true) => 1500,
-        (_, false) => 40000,
+        (_, true) => 8000,
+        (_, false) => 300000,
     };
     Budget { runs: (base * scale / 100).max(16), wall_s: if quick { 90 } else { 1500 } }
 }
@@ -133,6 +139,7 @@ pub fn required_probes(property: &str) -> Vec<&'static str> {
         "C03" => vec!["relay_compared_steps", "relay_reply_ge_8196", "net_split_read"],
         "C04" => vec!["c04_pool_full", "c04_probe_served", "c04_step_waited_20ms"],
         "C12" => vec!["c12_checked_statements", "c12_nondefault_value_checked", "c12_parameter_status_seen"],
+        "C07" => vec!["c07_some_ban_seen", "c07_routed_around_ban", "c07_failure_judged", "c07_break_mid_statement", "c07_transparent_failover_after_timeout", "c07_ban_ended_and_replica_used_again"],
         "C16" => vec!["c16_pause_interval", "c16_txn_sent_while_paused", "c16_client_held_then_released", "yield:pool.wait_paused.between"],
         "C08" => vec!["c08_execute_checked", "c08_execute_on_reused_connection", "c08_eviction_close_sent", "c08_reference_compared_steps"],
         _ => vec![],
@@ -404,6 +411,7 @@ fn rule_of(property: &str) -> String {
         "C03" => "reply streams with row sizes around the 8196-byte flush threshold, multi-statement, notices, errors, portal suspension, COPY in/out/fail, pipelined batches; segmentation from 1-byte dribble to whole buffer, small send buffers, short reads",
         "C04" => "clients >> pool_size, both modes; every second run adds client aborts at PRNG points, server connection kills, connect timeouts shorter than hold times; capacity probe and admin console after quiescence",
         "C08" => "statement cache on, pool cache sizes {1,2,8}, 2-4 clients over 1-3 connections per server; shared names s1..s3 with per-client texts, identical texts shared between clients (attribution by bind parameter), Parse/Describe/Bind/Execute/Close in all groupings, re-Parse after Close, Parse errors, eviction pressure; every fifth run uses statement pairs whose (query, num_params, types) concatenations coincide",
+        "C07" => "one shard with 0-3 replicas, with or without a primary, both load-balancing modes; per-server fault scripts (down = refuse + kill connections, hung after accept, rejects startup, black hole), statements that make the server close mid-reply, admin BAN/UNBAN, ban_time 1-4 s, clients asking for primary/replica/any as sequences of short sessions; every fourth run is the ban-expiry sub-family (admin ban with duration, fault ban with ban_time, UNBAN)",
         "C16" => "PAUSE/RESUME cycles (global or per pool) by an admin client; workers running throughout, clients that are idle when the pause begins, clients arriving after the PAUSE acknowledgement, mid-transaction clients; both pool modes; random subset of the yield sites inside wait_paused and between wait_paused and checkout; RESUME at PRNG times including right after a held client's message went out",
         "C12" => "2-5 clients sharing 1-2 server connections; startup parameter sets and SET sequences of tracked and untracked parameters; every fourth run uses hostile values (quotes, backslashes, non-ASCII, empty)",
         _ => "see DESIGN.md",
